@@ -7,7 +7,22 @@ import (
 
 // StartSingle starts a single-node cluster on dir and waits until it leads (used by other packages).
 func StartSingle(dir string) (*Node, error) {
-	nd, err := StartNode(NodeCfg{ID: "n0", Dir: dir, Port: FreePort(), Bootstrap: true, SnapshotThreshold: 8192, TrailingLogs: 10240})
+	return StartSingleCfg(NodeCfg{ID: "n0", Dir: dir, Port: FreePort(), Bootstrap: true, SnapshotThreshold: 8192, TrailingLogs: 10240})
+}
+
+// StartSingleCfg is StartSingle with an explicit configuration.
+func StartSingleCfg(cfg NodeCfg) (*Node, error) {
+	if cfg.ID == "" {
+		cfg.ID = "n0"
+	}
+	if cfg.Port == 0 {
+		cfg.Port = FreePort()
+	}
+	cfg.Bootstrap = true
+	if cfg.TrailingLogs == 0 {
+		cfg.TrailingLogs, cfg.SnapshotThreshold = 10240, 8192
+	}
+	nd, err := StartNode(cfg)
 	if err != nil {
 		return nil, err
 	}
